@@ -104,6 +104,21 @@ def delegation(repo, res):
         seen.add(base)
     ok &= seen == {"self.value", conv}
     res.check(ok, "to_value", fn.where(), "to_value returns the bare value of the same conversion (in_units with the same units, equivalence and keyword arguments)", found=sorted(seen), rid=r1)
+    # copying / in-place twins and aliases take the same parameters with the same defaults (a call that omits an argument
+    # must mean the same request on either route)
+    def _sig(f_):
+        a_ = f_.node.args
+        names_ = [x.arg for x in a_.posonlyargs + a_.args][1:]
+        d_ = dict(zip(names_[::-1], [norm(x) for x in a_.defaults[::-1]]))
+        return [(n_, d_.get(n_)) for n_ in names_], (a_.vararg.arg if a_.vararg else None), (a_.kwarg.arg if a_.kwarg else None)
+
+    for m1, m2 in (("in_units", "convert_to_units"), ("to", "in_units"), ("in_base", "convert_to_base"), ("in_cgs", "convert_to_cgs"), ("in_mks", "convert_to_mks"), ("to_equivalent", "convert_to_equivalent")):
+        f1, f2 = arr.func(f"unyt_array.{m1}"), arr.func(f"unyt_array.{m2}")
+        s1, s2 = _sig(f1), _sig(f2)
+        d1, d2 = dict(s1[0]), dict(s2[0])
+        common = [n_ for n_, _ in s1[0] if n_ in d2]
+        same = all(d1[n_] == d2[n_] for n_ in common) and [n_ for n_, _ in s2[0] if n_ in d1] == common
+        res.check(same, f"twin-signature:{m1}/{m2}", f2.where(), f"{m1} and {m2} express the same request but the parameters they share differ in default or order: a call that leaves an argument out is a different conversion on the two routes", [(n_, d1[n_]) for n_ in common], [(n_, d2[n_]) for n_ in common], rid=r1)
     # in_base: same target as get_base_equivalent
     fn = arr.func("unyt_array.in_base")
     res.fn(fn)
